@@ -3,7 +3,8 @@
 (* Trace specification binding DHTNode.tla to the real kademlia.DHTNode.    *)
 (* The log (ndjson, harness/cmd/dhtnodereplay) holds per call its arguments,*)
 (* what it returned and the observation of the node afterwards (every read- *)
-(* only method over the universes).  Only the PUBLIC API is used.           *)
+(* only method over the universes) through the public API, and CreatedAt /  *)
+(* ExpiresAt of every entry through the read-only hook VerifCaches.         *)
 (*                                                                         *)
 (*  VIOL   a law operator of DHTNode (ObsLaws on the observation,           *)
 (*         NodeStepLaws on the observation before, the call, the result and *)
@@ -11,7 +12,7 @@
 (*         false on what the real node did                                  *)
 (*  DRIFT  the call is not an outcome of the as-coded model (NodeOutcomes   *)
 (*         from the model's cache values P, D, which the trace spec carries *)
-(*         along: CreatedAt/ExpiresAt/len(buckets) are not observable), or  *)
+(*         along: len(buckets) and minExpiresAt are not observed), or       *)
 (*         a read-only method answers differently from the model's function *)
 (* Validation never blocks.  An "init" event carries the calls that were    *)
 (* executed silently before it (prefill, prefix of an edge-cover behaviour):*)
@@ -28,6 +29,7 @@ TNone == {}
 TKeys == TPeers \cup TDataKeys
 TQueries == TDataKeys \cup TTargets
 
+StampMap(s) == LET S == ToSet(s) IN [k \in {d.k : d \in S} |-> LET d == CHOOSE d \in S : d.k = k IN [c |-> d.c, e |-> d.e]]
 MapKV(s) == LET S == ToSet(s) IN [k \in {d.k : d \in S} |-> (CHOOSE d \in S : d.k = k).v]
 ObsOf(ev) ==
     LET L == ToSet(ev.list)  H == ToSet(ev.hget)  F == ToSet(ev.find)  I == ToSet(ev.infos)  W == ToSet(ev.would) IN
@@ -39,9 +41,10 @@ ObsOf(ev) ==
      hget |-> [q \in {x.q : x \in H} |-> LET x == CHOOSE x \in H : x.q = q IN [v |-> x.v, s |-> x.s, si |-> x.si]],
      find |-> [y \in {<<x.q, x.n>> : x \in F} |-> (CHOOSE x \in F : x.q = y[1] /\ x.n = y[2]).s],
      infos |-> [y \in {<<x.q, x.n>> : x \in I} |-> (CHOOSE x \in I : x.q = y[1] /\ x.n = y[2]).s],
-     would |-> [k \in {x.k : x \in W} |-> (CHOOSE x \in W : x.k = k).b]]
+     would |-> [k \in {x.k : x \in W} |-> (CHOOSE x \in W : x.k = k).b],
+     pst |-> StampMap(ev.pst), dst |-> StampMap(ev.dst)]
 EmptyObs == [peers |-> <<>>, has |-> {}, data |-> <<>>, count |-> 0, list |-> <<>>, hget |-> <<>>, find |-> <<>>,
-             infos |-> <<>>, would |-> <<>>]
+             infos |-> <<>>, would |-> <<>>, pst |-> <<>>, dst |-> <<>>]
 
 \* the model over the silent calls (any outcome where map order decides)
 RECURSIVE RunPrefix(_, _, _, _, _, _, _)
@@ -50,24 +53,27 @@ RunPrefix(st, ops, i, pmx, dmx, a, b) ==
     ELSE LET o == ops[i]
              out == CHOOSE out \in NodeOutcomes(st.P, st.D, pmx, dmx, o) : TRUE
          IN RunPrefix([P |-> out.P, D |-> out.D, gpx |-> NextPx(st.gpx, o), gdx |-> NextDx(st.gdx, o),
-                       gpb |-> NextPb(st.gpb, DOMAIN PurgeC(st.P, o.t).E, o), gdb |-> NextDb(st.gdb, o)], ops, i + 1, pmx, dmx, a, b)
+                       gpb |-> NextPb(st.gpb, DOMAIN st.P.E, {k \in DOMAIN st.P.E : ~Expired(st.P.E[k], o.t)}, o), gdb |-> NextDb(st.gdb, o)], ops, i + 1, pmx, dmx, a, b)
 
 \* a cache value that agrees with an observed map (after a step the model cannot explain)
-Resync(C, m, x, t) ==
-    LET E2 == [k \in DOMAIN m |-> IF k \in DOMAIN C.E THEN [C.E[k] EXCEPT !.v = m[k]]
-                                  ELSE [v |-> m[k], c |-> t, e |-> IF k \in DOMAIN x THEN x[k] ELSE t]]
+Resync(C, m, st, t) ==
+    LET E2 == [k \in DOMAIN m |-> IF k \in DOMAIN st THEN [v |-> m[k], c |-> st[k].c, e |-> st[k].e]
+                                  ELSE IF k \in DOMAIN C.E THEN [C.E[k] EXCEPT !.v = m[k]]
+                                  ELSE [v |-> m[k], c |-> t, e |-> t]]
     IN MkCache(E2, Max2(C.n, MaxBucket(DOMAIN m) + 1),
                [i \in 0..(NBuckets - 1) |-> MinExpOf(E2, InB(E2, i))], Cardinality(DOMAIN m))
 
 \* read-only methods versus the model's functions
 ReadDrift(o, Pc, Dc, pmx, dmx) ==
-    {nm \in {"Count", "HandleGet", "Closer", "FindNode", "ListNodeInfos", "WouldAdd", "ListPeersLen"} :
+    {nm \in {"Count", "HandleGet", "Closer", "FindNode", "ListNodeInfos", "WouldAdd", "ListPeersLen", "Stamps"} :
         CASE nm = "Count" -> o.count # Dc.c
           [] nm = "HandleGet" -> \E q \in DOMAIN o.hget : o.hget[q].v # GetC(Dc, q)
           [] nm = "Closer" -> \E q \in DOMAIN o.hget : o.hget[q].s # CloserNodesOf(Pc, q)
           [] nm = "FindNode" -> \E y \in DOMAIN o.find : o.find[y] # FindNodeOf(Pc, y[1], y[2])
           [] nm = "ListNodeInfos" -> \E y \in DOMAIN o.infos : o.infos[y] # ListNodeInfosOf(Pc, y[1], y[2])
           [] nm = "WouldAdd" -> \E k \in DOMAIN o.would : o.would[k] # WouldAddC2(Dc, dmx, DataMin, k)
+          [] nm = "Stamps" -> \/ o.pst # [k \in DOMAIN Pc.E |-> [c |-> Pc.E[k].c, e |-> Pc.E[k].e]]
+                              \/ o.dst # [k \in DOMAIN Dc.E |-> [c |-> Dc.E[k].c, e |-> Dc.E[k].e]]
           [] nm = "ListPeersLen" -> \E n \in DOMAIN o.list : Len(o.list[n]) # Len(ListPeersOf(Pc, n))}
 
 TraceInit ==
@@ -88,21 +94,17 @@ TraceNext ==
            /\ PrintT(ToJson(<<"VIOL", l, ev.beh, {"NoPanic"}>>))
            /\ panicked' = TRUE
            /\ UNCHANGED <<pmax, dmax, P, D, now, obs, gpx, gdx, gpb, gdb>>
-       ELSE IF ev.ev \in {"cacheget", "cachedel"} THEN
-           \* probes of kademlia.Cache itself (not of DHTNode): ttl = the entry's ExpiresAt (0 = never), t = the now given to Get
-           LET alive == ev.ttl = 0 \/ ev.ttl >= ev.t
-               vs == IF ev.ev = "cacheget"
-                     THEN (IF ev.ret # alive THEN {"CacheGetHonoursNow"} ELSE {}) \cup (IF ev.acc # alive THEN {"CacheContainsHonoursNow"} ELSE {})
-                     ELSE (IF ev.ret THEN {"CacheDeleteNilWhenAbsent"} ELSE {})
-           IN /\ (vs # {}) => PrintT(ToJson(<<"VIOL", l, ev.beh, vs>>))
-              /\ UNCHANGED <<pmax, dmax, P, D, now, obs, gpx, gdx, gpb, gdb, panicked>>
+       ELSE IF ev.ev = "cachedel" THEN
+           \* a probe of kademlia.Cache itself (not of DHTNode): Delete of an absent key; ret = the returned *Entry is not nil
+           /\ ev.ret => PrintT(ToJson(<<"VIOL", l, ev.beh, {"CacheDeleteNilWhenAbsent"}>>))
+           /\ UNCHANGED <<pmax, dmax, P, D, now, obs, gpx, gdx, gpb, gdb, panicked>>
        ELSE IF ev.ev = "init" THEN
            LET run == RunPrefix([P |-> EmptyC, D |-> EmptyC, gpx |-> <<>>, gdx |-> <<>>, gpb |-> <<>>, gdb |-> <<>>], ev.prefix, 1, ev.pmax, ev.dmax, 0, 0)
                o2 == ObsOf(ev)
                okP == Proj(run.P) = o2.peers
                okD == Proj(run.D) = o2.data
-               P2 == IF okP THEN run.P ELSE Resync(run.P, o2.peers, run.gpx, ev.t)
-               D2 == IF okD THEN run.D ELSE Resync(run.D, o2.data, run.gdx, ev.t)
+               P2 == IF okP THEN run.P ELSE Resync(run.P, o2.peers, o2.pst, ev.t)
+               D2 == IF okD THEN run.D ELSE Resync(run.D, o2.data, o2.dst, ev.t)
                vs == ObsLaws(o2, ev.pmax, ev.dmax)
                rd == ReadDrift(o2, P2, D2, ev.pmax, ev.dmax)
            IN /\ pmax' = ev.pmax /\ dmax' = ev.dmax
@@ -124,13 +126,13 @@ TraceNext ==
                any == CHOOSE out \in outs : TRUE
                px2 == NextPx(gpx, c)
                dx2 == NextDx(gdx, c)
-               P2 == IF match # {} THEN (CHOOSE out \in match : TRUE).P ELSE Resync(any.P, o2.peers, px2, ev.t)
-               D2 == IF match # {} THEN (CHOOSE out \in match : TRUE).D ELSE Resync(any.D, o2.data, dx2, ev.t)
+               P2 == IF match # {} THEN (CHOOSE out \in match : TRUE).P ELSE Resync(any.P, o2.peers, o2.pst, ev.t)
+               D2 == IF match # {} THEN (CHOOSE out \in match : TRUE).D ELSE Resync(any.D, o2.data, o2.dst, ev.t)
                rd == ReadDrift(o2, P2, D2, pmax, dmax)
            IN /\ UNCHANGED <<pmax, dmax>>
               /\ P' = P2 /\ D' = D2 /\ now' = ev.t
               /\ obs' = o2 /\ gpx' = px2 /\ gdx' = dx2
-              /\ gpb' = NextPb(gpb, Live(obs.peers, gpx, ev.t), c) /\ gdb' = NextDb(gdb, c)
+              /\ gpb' = NextPb(gpb, DOMAIN obs.peers, Live(obs.peers, gpx, ev.t), c) /\ gdb' = NextDb(gdb, c)
               /\ panicked' = FALSE
               /\ (vs # {}) => PrintT(ToJson(<<"VIOL", l, ev.beh, vs>>))
               /\ (match = {}) => PrintT(ToJson(<<"DRIFT", l, ev.beh, {"step/" \o ev.ev}>>))
